@@ -40,6 +40,8 @@ func propC08(r *Run) {
 		}
 		classes := map[string]int{}
 		points := 0
+		w.followUp = r.Choose("follow-up-after-crash", 2) == 1
+		w.followSet = r.Choose("follow-up-default", 3)
 		// crash points: before operation k (k = 0..nops), and inside each write
 		type cp struct{ k, prefix int }
 		var cps []cp
